@@ -306,6 +306,32 @@ def _template_alias_case(seed):
     return out
 
 
+def _prune_case(seed):
+    """lark's compiled rules with every rule declared a start symbol (nothing is pruned) against the rules compiled for `start` alone: which rules were kept"""
+    from lark import Lark
+    from lark.exceptions import LarkError
+    import compilelib, earleylib
+    rng = random.Random(seed)
+    ast_ = compilelib.gen(rng)
+    g = compilelib.as_written(ast_)
+    names = list(ast_['rules'])
+    try:
+        with guarded(8):
+            full = Lark(g, parser='earley', lexer='dynamic', start=names)
+            roots = ['start'] + ([rng.choice(names)] if rng.random() < 0.3 else [])
+            pruned = Lark(g, parser='earley', lexer='dynamic', start=roots)
+    except (LarkError, Timeout):
+        return None
+    nts, ts = {}, {}
+    def nt(n): return nts.setdefault(n, len(nts))
+    def tm(n): return ts.setdefault(n, len(ts))
+    key = lambda r: (r.origin.name, tuple((s.is_term, s.name) for s in r.expansion))
+    kept = {key(r) for r in pruned.rules}
+    rules = [{'lhs': nt(r.origin.name), 'rhs': [[1, tm(s.name)] if s.is_term else [0, nt(s.name)] for s in r.expansion]} for r in full.rules]
+    return {'grammar': g, 'roots': roots, 'case': {'op': 'prune_check', 'rules': rules, 'keep': [key(r) in kept for r in full.rules], 'roots': [nt(x) for x in roots]},
+            'n_full': len(full.rules), 'n_kept': len(pruned.rules), 'foreign': sorted(str(k) for k in kept - {key(r) for r in full.rules})}
+
+
 def _mangle_case(args):
     prefix, aliases, names = args
     from lark.load_grammar import _get_mangle
@@ -332,6 +358,20 @@ def run(ctx, res):
             raise InfraError(r)
         if r != m:
             res.corr_break('_get_mangle differs from the Lean mangle', {'prefix': job[0], 'aliases': job[1], 'names': job[2], 'code': r, 'model': m})
+    # ---- removal of unused rules: the kept rule set is closed from the start symbols (hypothesis of Props.C17.prune_unused_preserves_language), checked by the
+    # Lean closedB on lark's own compiled rules (all rules as start symbols = nothing pruned, against the rules compiled for the requested start symbols)
+    if ctx['driver_ok']:
+        pseeds = [rng.randrange(1 << 30) for _ in range(tier_scale(ctx['tier'], 400, 4000))]
+        precs = [(sd, r) for sd, (st, r) in zip(pseeds, pmap(_prune_case, pseeds, chunksize=8)) if st == 'ok' and r is not None]
+        for (sd, r), m in zip(precs, run_driver([r['case'] for _sd, r in precs])):
+            if 'error' in m:
+                raise InfraError('driver prune_check: %s' % m['error'])
+            res.case(['prune', r['grammar'], r['roots']], nontrivial=r['n_kept'] < r['n_full'])
+            res.count('prune_cases'); res.count('prune_cases_with_removed_rules', 1 if r['n_kept'] < r['n_full'] else 0)
+            if r['foreign']:
+                res.corr_break('rules compiled for the start symbols are not among the rules compiled with every rule as a start symbol', {'grammar': r['grammar'], 'roots': r['roots'], 'rules': r['foreign'][:5]})
+            elif not m['closed'] or m['kept'] != r['n_kept']:
+                res.corr_break('the rule set lark keeps is not closed from the start symbols (PruneProto.closedB, hypothesis of prune_unused_preserves_language)', {'grammar': r['grammar'], 'roots': r['roots'], 'kept': r['n_kept'], 'of': r['n_full']})
     # ---- templates with aliases (spelled like the parameter, like a rule) and nested template use vs the instance written out by hand
     aseeds = [rng.randrange(1 << 30) for _ in range(tier_scale(ctx['tier'], 300, 3000))]
     for seed, (st, rec) in zip(aseeds, pmap(_template_alias_case, aseeds, chunksize=8)):
